@@ -4,14 +4,18 @@ import asyncio
 KINDS = ['gen', 'agen', 'rx3', 'rx4']
 
 
-def make_source(kind, count, flagged, failing, on_cancel=None, on_complete=None):
+def make_source(kind, count, flagged, failing, on_cancel=None, on_complete=None, pulls=None):
+    """`pulls`: a list that receives the index of every element the library takes out of the application's generator"""
     from rsocket.payload import Payload
     items = [(Payload(bytes([i + 1])), flagged and i == count - 1) for i in range(count)]
+    if pulls is None:
+        pulls = []
     if kind == 'gen':
         from rsocket.streams.stream_from_generator import StreamFromGenerator
 
         def gen():
-            for it in items:
+            for k, it in enumerate(items):
+                pulls.append(k)
                 yield it
             if failing:
                 raise RuntimeError('source failure')
@@ -20,7 +24,8 @@ def make_source(kind, count, flagged, failing, on_cancel=None, on_complete=None)
         from rsocket.streams.stream_from_async_generator import StreamFromAsyncGenerator
 
         async def agen():
-            for it in items:
+            for k, it in enumerate(items):
+                pulls.append(k)
                 yield it
             if failing:
                 raise RuntimeError('source failure')
@@ -73,7 +78,9 @@ class Rec:
 
 async def drive(loop, case):
     cancelled = []
-    src = make_source(case['kind'], case['count'], case['flagged'], case['failing'], on_cancel=lambda: cancelled.append(1))
+    pulls = []
+    pulls_at_cancel = None
+    src = make_source(case['kind'], case['count'], case['flagged'], case['failing'], on_cancel=lambda: cancelled.append(1), pulls=pulls)
     rec = Rec()
     src.subscribe(rec)
     points, errors = [], []
@@ -97,9 +104,14 @@ async def drive(loop, case):
             except Exception as e:
                 errors.append('cancel: %s' % type(e).__name__)
             n_at_cancel = len(rec.events)
+            if pulls_at_cancel is None:
+                pulls_at_cancel = len(pulls)
             await loop.settle()
             points.append(('cancelled', len(rec.events) - n_at_cancel))
     await loop.settle()
     tasks = [getattr(src, a, None) for a in ('_payload_feeder', '_n_feeder')]
     running = [t for t in tasks if t is not None and not t.done()]
-    return {'points': points, 'events': [list(e) for e in rec.events], 'errors': errors, 'on_cancel': len(cancelled), 'tasks_running': len(running)}
+    # tasks the source started and left behind (whether or not it still holds a reference to them)
+    alive = [t for t in asyncio.all_tasks() if t is not asyncio.current_task() and not t.done()]
+    return {'points': points, 'events': [list(e) for e in rec.events], 'errors': errors, 'on_cancel': len(cancelled), 'tasks_running': len(running),
+            'tasks_alive': len(alive), 'pulled_after_cancel': (len(pulls) - pulls_at_cancel) if pulls_at_cancel is not None else 0}
